@@ -66,6 +66,14 @@ func genC08(t *core.Tape, tier string) *Scenario {
 	sc.AlgoYield = t.Bool(1, 2, "algo.yield")
 	h.ReadMax, c.ReadMax = 1<<20, 1<<20
 	sc.Handlers = []HandlerCfg{h}
+	if t.Bool(1, 2, "second.handler.set") {
+		// a second handler set with its own algorithms in the same process:
+		// whatever one handler decided must not leak into the other
+		h2 := HandlerCfg{Comp: genSubset(t, "hcomp2"), CompressMin: h.CompressMin, ReadMax: 1 << 20}
+		fixCompat(&c, &h2)
+		sc.Handlers = append(sc.Handlers, h2)
+		sc.Notes["two_handler_sets"]++
+	}
 	sc.Clients = []ClientCfg{c}
 	codec := "proto"
 	if c.JSON {
@@ -75,7 +83,7 @@ func genC08(t *core.Tape, tier string) *Scenario {
 	concurrent := t.Bool(1, 2, "concurrent")
 	sizes := []int{0, 1, 5, 7, 8, 9, 60, 63, 64, 66, 300, 509, 512, 515, 3000}
 	for i := 0; i < ncalls; i++ {
-		p := &CallPlan{ID: callID(i), Kind: genKind(t)}
+		p := &CallPlan{ID: callID(i), Kind: genKind(t), Handler: t.Choose(len(sc.Handlers), "handler")}
 		p.K = genKnobs(t, p.Kind)
 		nreq, nresp := 1, 1
 		if p.Kind == KClient || p.Kind == KBidi {
@@ -94,7 +102,7 @@ func genC08(t *core.Tape, tier string) *Scenario {
 		if concurrent {
 			p.Task = i % 2
 		}
-		makeBad(t, sc, p, &c, &h, codec, t.Pick([]int{5, 2, 2, 1}, "badness"))
+		makeBad(t, sc, p, &c, &sc.Handlers[p.Handler], codec, t.Pick([]int{5, 2, 2, 1}, "badness"))
 		if !p.Split {
 			earlyExitKnobs(p) // a call may fail early (corrupt neighbour, injected failure)
 		}
@@ -271,7 +279,6 @@ func checkC08(w *World, st core.Status, r *RunResult) []Violation {
 	if st != core.Done {
 		return nil
 	}
-	h := &w.Sc.Handlers[0]
 	ccfg := w.Sc.Clients[0]
 	codec := "proto"
 	if ccfg.JSON {
@@ -295,6 +302,7 @@ func checkC08(w *World, st core.Status, r *RunResult) []Violation {
 		if transportLimit(o, r) {
 			continue
 		}
+		h := &w.Sc.Handlers[p.Handler]
 		tag := ccfg.Proto.String() + "/" + p.Kind.String()
 		add := func(class, msg string) {
 			vs = append(vs, Violation{Class: "C08/" + class + "/" + tag, Msg: p.ID + ": " + msg})
@@ -366,7 +374,7 @@ func checkC08(w *World, st core.Status, r *RunResult) []Violation {
 						}
 					}
 				}
-				add("corrupt-response/reported-success", fmt.Sprintf("%s (encoding %v): client reported success with %d message(s); first difference from the original value at byte %d of %d/%d", p.bad, p.Canned.Header, len(o.Recv), diffAt, len(p.badOriginal), len(o.Recv[0])))
+				add("corrupt-response/reported-success", fmt.Sprintf("%s (encoding %v): client reported success with %d message(s); first difference from the original value at byte %d of %d/%d", p.bad, p.Canned.Header, len(o.Recv), diffAt, len(p.badOriginal), recvLen(o)))
 			} else if !errors.As(o.Final, &ce) || ce.Code() == 0 {
 				add("corrupt-response/uncoded", fmt.Sprintf("%v", o.Final))
 			}
@@ -520,4 +528,11 @@ func badList(w *World) []string {
 		}
 	}
 	return out
+}
+
+func recvLen(o *CallObs) int {
+	if len(o.Recv) == 0 {
+		return 0
+	}
+	return len(o.Recv[0])
 }
